@@ -57,6 +57,29 @@ void runC01() {
   const bool th = vrt::thorough();
   const long n = vrt::g_args.getInt("n", th ? 20000 : 480);
   const long nScript = vrt::g_args.getInt("scripted", th ? 200 : 16);
+  // scripted: the pool is destroyed at zero threads with a task in its central queue (schedule raced resize(0))
+  for (long idx = n + nScript; idx < n + 2 * nScript; ++idx) {
+    if (!vrt::selected(idx)) continue;
+    vrt::Rng r = vrt::caseRng(idx);
+    ScriptSpec sp;
+    sp.kind = SK_FQ_AFTER_RESIZE0;
+    sp.N = static_cast<int>(r.range(1, 9));
+    sp.target = 0;
+    sp.via = r.chance(0.5) ? 0 : 2;
+    sp.count = static_cast<int>(r.range(2, 6));
+    static const int mults[] = {1, 32};
+    sp.mult = r.pick(mults);
+    J spec = sp.json();
+    vrt::caseBegin(idx, std::string("scripted/dtor-zero-thread-queue/") + (sp.via ? "schedule" : "fq"), spec);
+    vrt::watchdogArm();
+    ScriptObs so = runScript(sp);
+    vrt::watchdogDisarm();
+    if (!so.reached) vrt::inconclusive(so.why);
+    commonCountVerdict(so.c, spec, false);
+    std::vector<std::string> cls{"script:dtor-zero-thread-queue"};
+    if (so.reached && so.stranded && so.ranInDtor) cls.push_back("zero-thread-dtor-drained");
+    vrt::caseEnd(J().kv("queuedAtZeroThreads", so.stranded).kv("ranInDtor", so.ranInDtor).kv("obs", so.c.json()), so.reached ? spec.str() : "", cls);
+  }
   for (long idx = n; idx < n + nScript; ++idx) {
     if (!vrt::selected(idx)) continue;
     vrt::Rng r = vrt::caseRng(idx);
@@ -666,8 +689,24 @@ ScriptSpec genScript(vrt::Rng& r, int kind) {
       break;
     case SK_FQ_AFTER_RESIZE0:
       sp.target = 0;
-      sp.via = static_cast<int>(r.below(2));
+      sp.via = static_cast<int>(r.below(3));
+      sp.count = static_cast<int>(r.range(2, 6));
       break;
+    case SK_SHRINK_BEFORE_RINGCOUNT: {
+      // ring path: count <= N and 4*count >= N; shrink to a non-zero size below count that does not divide it
+      sp.N = static_cast<int>(r.range(3, 9));
+      sp.count = static_cast<int>(r.range(std::max(3, (sp.N + 3) / 4), sp.N));
+      sp.target = 1;
+      for (int tries = 0; tries < 16; ++tries) {
+        int t = static_cast<int>(r.range(2, sp.count - 1));
+        if (sp.count % t != 0) {
+          sp.target = t;
+          break;
+        }
+      }
+      sp.setKind = r.chance(0.5) ? 1 : 3;
+      break;
+    }
     default: {
       sp.count = static_cast<int>(r.range((sp.N + 3) / 4, sp.N));
       int tc = static_cast<int>(r.below(3));
@@ -680,14 +719,14 @@ ScriptSpec genScript(vrt::Rng& r, int kind) {
   return sp;
 }
 const char* scriptName(int k) {
-  const char* kn[] = {"?", "push-after-shrink", "ringbulk-after-join", "ringbulk-after-stop", "placed-after-stop", "fq-after-resize0"};
+  const char* kn[] = {"?", "push-after-shrink", "ringbulk-after-join", "ringbulk-after-stop", "placed-after-stop", "fq-after-resize0", "shrink-before-ringcount-load"};
   return kn[k];
 }
 std::string scriptKey(const ScriptSpec& sp) {
   const char* sk[] = {"future", "TS", "CTSh", "CTSl"};
   std::string k = std::string("scripted/") + scriptName(sp.kind) + "/";
-  if (sp.kind == SK_PUSH_AFTER_SHRINK) return k + sk[sp.setKind];
-  if (sp.kind == SK_FQ_AFTER_RESIZE0) return k + (sp.via ? "taskset" : "pool-schedule");
+  if (sp.kind == SK_PUSH_AFTER_SHRINK || sp.kind == SK_SHRINK_BEFORE_RINGCOUNT) return k + sk[sp.setKind];
+  if (sp.kind == SK_FQ_AFTER_RESIZE0) return k + (sp.via == 1 ? "taskset" : sp.via == 2 ? "pool-schedule-plain" : "pool-schedule");
   return k + sp.targetClass() + "/" + sk[sp.setKind];
 }
 } // namespace
@@ -725,8 +764,8 @@ void runC03() {
       vrt::caseEnd(o.json(), (o.resizes >= 1 && o.ids >= 2) ? spec.str() : "", cls);
     } else {
       static const int kinds[] = {SK_PUSH_AFTER_SHRINK, SK_RINGBULK_AFTER_JOIN, SK_RINGBULK_AFTER_STOP, SK_PLACED_AFTER_STOP, SK_FQ_AFTER_RESIZE0,
-                                  SK_RINGBULK_AFTER_JOIN, SK_PUSH_AFTER_SHRINK, SK_PLACED_AFTER_STOP};
-      ScriptSpec sp = genScript(r, kinds[r.below(8)]);
+                                  SK_RINGBULK_AFTER_JOIN, SK_PUSH_AFTER_SHRINK, SK_PLACED_AFTER_STOP, SK_SHRINK_BEFORE_RINGCOUNT, SK_SHRINK_BEFORE_RINGCOUNT};
+      ScriptSpec sp = genScript(r, kinds[r.below(10)]);
       // the real wait() (hang verdict by the watchdog) for a few of the known stranding schedules
       sp.realWait = realWait && sp.kind == SK_PUSH_AFTER_SHRINK && r.chance(0.15);
       std::string key = scriptKey(sp);
@@ -751,7 +790,8 @@ void runC03() {
       commonCountVerdict(so.c, spec, false);
       barrierVerdict(so.c, spec);
       std::vector<std::string> cls{std::string("script:") + scriptName(sp.kind)};
-      if (sp.kind != SK_PUSH_AFTER_SHRINK && sp.kind != SK_FQ_AFTER_RESIZE0) cls.push_back(std::string("target:") + sp.targetClass());
+      if (sp.kind != SK_PUSH_AFTER_SHRINK && sp.kind != SK_FQ_AFTER_RESIZE0 && sp.kind != SK_SHRINK_BEFORE_RINGCOUNT) cls.push_back(std::string("target:") + sp.targetClass());
+      if (sp.kind == SK_FQ_AFTER_RESIZE0 && so.ranInDtor) cls.push_back("zero-thread-dtor-drained");
       if (so.drainedByResize) cls.push_back("resize-drained");
       if (so.reached) cls.push_back("gate-reached");
       vrt::caseEnd(J().kv("stranded", so.stranded).kv("drainedByResize", so.drainedByResize).kv("polls", so.polls).kv("obs", so.c.json()), so.reached ? spec.str() : "", cls);
